@@ -12,7 +12,7 @@ from __future__ import annotations
 
 import z3
 
-STR = z3.DeclareSort("Str!abs")
+STR = z3.DeclareSort("StrAbs")
 _STRING = z3.StringSort()
 
 
@@ -25,20 +25,22 @@ class Abs:
         self.regexes = {}
         self.lit_ast = {}
         self.n = 0
-        self.len_f = z3.Function("len!abs", STR, z3.IntSort())
+        self.len_f = z3.Function("len_abs", STR, z3.IntSort())
 
     def sort(self, s):
         return STR if s == _STRING else s
 
     def fresh(self, sort, key):
         self.n += 1
-        return z3.Const(f"abs!{self.n}", self.sort(sort))
+        return z3.Const(f"abs_{self.n}", self.sort(sort))
 
     def uf(self, name, dom, rng):
         k = (name, tuple(str(d) for d in dom), str(rng))
         f = self.ufs.get(k)
         if f is None:
-            f = z3.Function(f"{name}!abs{len(self.ufs)}", *dom, rng)
+            # SMT-LIB friendly symbol: the abstraction is also handed to cvc5 in the thorough tier
+            safe = "".join(ch if ch.isalnum() or ch in "_." else "_" for ch in name.split(":")[0])[:30]
+            f = z3.Function(f"{safe}_abs{len(self.ufs)}", *dom, rng)
             self.ufs[k] = f
         return f
 
@@ -85,7 +87,7 @@ class Abs:
             txt = t.as_string()
             c = self.lits.get(txt)
             if c is None:
-                c = z3.Const(f"lit!{len(self.lits)}", STR)
+                c = z3.Const(f"lit_{len(self.lits)}", STR)
                 self.lits[txt] = c
                 self.lit_ast[txt] = t
                 self.side.append(self.len_f(c) == z3.simplify(z3.Length(t)))
@@ -95,7 +97,7 @@ class Abs:
         ch = t.children()
         if not ch:
             if t.sort() == _STRING:
-                return z3.Const(d.name() + "!s", STR)
+                return z3.Const(d.name() + "_s", STR)
             return t
         if any(z3.is_re(c) or isinstance(c, z3.ReRef) for c in ch):
             if k == z3.Z3_OP_SEQ_IN_RE:
@@ -158,19 +160,25 @@ def _params(d):
         return []
 
 
-def check_unsat(assertions, rlimit=3_000_000, timeout_ms=4000) -> bool:
-    """True iff the string-free abstraction of the (ground part of the) assertions is unsatisfiable."""
+def abstraction(assertions):
+    """A z3 solver holding the string-free abstraction of the (ground part of the) assertions."""
     a = Abs()
     s = z3.Solver()
-    s.set("rlimit", rlimit)
-    s.set("timeout", timeout_ms)
+    for f in assertions:
+        if z3.is_quantifier(f):
+            continue
+        s.add(a.tr(f))
+    s.add(*a.side)
+    s.add(*a.distinct_lits())
+    return s
+
+
+def check_unsat(assertions, rlimit=3_000_000, timeout_ms=4000) -> bool:
+    """True iff the string-free abstraction of the (ground part of the) assertions is unsatisfiable."""
     try:
-        for f in assertions:
-            if z3.is_quantifier(f):
-                continue
-            s.add(a.tr(f))
-        s.add(*a.side)
-        s.add(*a.distinct_lits())
+        s = abstraction(assertions)
+        s.set("rlimit", rlimit)
+        s.set("timeout", timeout_ms)
         return s.check() == z3.unsat
     except z3.Z3Exception:
         return False
